@@ -3,7 +3,7 @@
 # scratch worktree /tmp/port-wt: demo passes on the clean tree and fails with the patch, all-features build and suite pass with it;
 # then stores it under /verif/seeded/<Cxx>-<variant>/.
 set -u
-P=$1; X=${2:-c}; SRC=/tmp/wtout2/$P/$X; WT=/tmp/port-wt
+P=$1; X=${2:-c}; SRC=/tmp/wtout2/$P/$X; WT=${WT:-/tmp/port-wt}
 HEADSHA=$(git -C /repo rev-parse --short HEAD)
 [ -d $WT ] || git -C /repo worktree add -q --detach $WT HEAD || exit 9
 cd $WT && git checkout -q --detach $(git -C /repo rev-parse HEAD) && git checkout -q -- . && git clean -fdq -e target
@@ -39,7 +39,7 @@ if [ $R_CLEAN -eq 0 ] && [ $R_PATCH -ne 0 ] && [ $R_BUILD -eq 0 ] && [ $R_SUITE 
   python3 - <<PY
 import json
 m=json.load(open('$SRC/meta.json'))
-m['base']='$HEADSHA (the repaired tree; round 2)'
+m['base']='$HEADSHA (the repaired tree)'
 m['confirmed']={'demo_clean_rc':$R_CLEAN,'demo_patched_rc':$R_PATCH,'all_features_build_rc':$R_BUILD,'suite_rc':$R_SUITE,'suite_summary':"""$SUMMARY""",'ran':'tools/confirm_seed2.sh in scratch worktree $WT at $HEADSHA: demo on clean tree, demo with patch, cargo build all features, cargo nextest run --workspace'}
 json.dump(m,open('$D/meta.json','w'),indent=1)
 PY
